@@ -6,6 +6,6 @@ export CARGO_NET_OFFLINE=true
 (cd lean && lake build VarproModel driver)
 REPO=${VARPRO_REPO:-/repo}
 sed -i "s#varpro = { path = \"[^\"]*\" }#varpro = { path = \"$REPO\" }#" harness/Cargo.toml
-cp $REPO/Cargo.lock harness/Cargo.lock
+cp $REPO/Cargo.lock harness/Cargo.lock 2>/dev/null || cp harness/Cargo.lock.base harness/Cargo.lock
 (cd harness && cargo build --offline --profile release --features parallel && cargo build --offline --profile checked --features parallel)
 echo setup-ok
